@@ -2,6 +2,7 @@ package c16
 
 import (
 	"fmt"
+	"runtime"
 	"sort"
 	"strings"
 
@@ -65,9 +66,10 @@ func applyAll(a, b slip.Object) [4]outcome {
 }
 
 type hashObs struct {
-	code int64
-	err  *sl.Err
-	odd  string
+	code     int64
+	err      *sl.Err
+	odd      string
+	unstable string // "" or when the code changed: same-form, next-form, after-gc
 }
 
 func sxhash(a slip.Object) hashObs {
@@ -87,9 +89,32 @@ func sxhash(a slip.Object) hashObs {
 		return hashObs{odd: "not a non-negative fixnum: " + sl.Show(res)}
 	}
 	if h1 != h2 {
-		return hashObs{odd: "unstable: " + sl.Show(res)}
+		return hashObs{odd: "two calls in one form gave " + sl.Show(res), unstable: "same-form"}
 	}
 	return hashObs{code: int64(h1)}
+}
+
+// sxhashAgain hashes the same object again, in a new evaluation and optionally
+// after a garbage collection, and reports a changed code.
+func sxhashAgain(a slip.Object, first hashObs, gc bool) hashObs {
+	if first.err != nil || first.odd != "" {
+		return first
+	}
+	if gc {
+		runtime.GC()
+	}
+	second := sxhash(a)
+	if second.err != nil || second.odd != "" {
+		return second
+	}
+	if second.code != first.code {
+		when := "next-form"
+		if gc {
+			when = "after-gc"
+		}
+		return hashObs{odd: fmt.Sprintf("code %d became %d", first.code, second.code), unstable: when}
+	}
+	return first
 }
 
 // kindsSig names the kinds of a tuple: fine kinds when all are numbers
@@ -160,6 +185,7 @@ func culprit(a, b *hv, bad func(ka, kb *hv) bool) (*hv, *hv) {
 // matrix holds the observations over a set of built objects.
 type matrix struct {
 	x    *fw.Ctx
+	gc   bool // re-hash every object after a garbage collection
 	objs []*hv
 	rows map[int][][4]outcome // forward row i: p(i, j) for all j
 	hash map[int]hashObs
@@ -186,6 +212,12 @@ func (m *matrix) sx(i int) hashObs {
 		return h
 	}
 	h := sxhash(m.objs[i].obj)
+	h = sxhashAgain(m.objs[i].obj, h, false)
+	m.x.Cover("sxhash-stable-checked:next-form")
+	if m.gc {
+		h = sxhashAgain(m.objs[i].obj, h, true)
+		m.x.Cover("sxhash-stable-checked:after-gc")
+	}
 	m.hash[i] = h
 	return h
 }
@@ -202,6 +234,8 @@ func (m *matrix) judgeRow(i int) {
 			k = "internal"
 		}
 		x.Fail("sxhash fail="+k+" kind="+a.o.K, "(sxhash %s) => %s", a.o.Text(), fmtErr(hi.err))
+	} else if hi.unstable != "" {
+		x.Fail("sxhash fail=unstable when="+hi.unstable+" kind="+a.o.K, "(sxhash x) of one and the same object changed, x = %s: %s", a.o.Text(), hi.odd)
 	} else if hi.odd != "" {
 		x.Fail("sxhash fail=bad-code kind="+a.o.K, "(sxhash %s): %s", a.o.Text(), hi.odd)
 	}
@@ -344,6 +378,7 @@ func execRow(x *fw.Ctx, c Case) {
 	}
 	if uniMatrix == nil {
 		uniMatrix = newMatrix(x, objs)
+		uniMatrix.gc = true
 	}
 	uniMatrix.x = x
 	if c.I < 0 || len(objs) <= c.I {
@@ -351,9 +386,6 @@ func execRow(x *fw.Ctx, c Case) {
 		return
 	}
 	x.Cover("row-kind:" + objs[c.I].o.K)
-	if lossyFrom <= c.I {
-		x.Cover("minority:lossy-float-collision")
-	}
 	uniMatrix.judgeRow(c.I)
 	x.Observe(map[string]any{"object": objs[c.I].o.Src(), "compared-with": len(objs)})
 }
@@ -375,6 +407,7 @@ func execMini(x *fw.Ctx, c Case) {
 		return
 	}
 	m := newMatrix(x, objs)
+	m.gc = x.Index%8 == 0
 	trues := 0
 	for i := range objs {
 		m.judgeRow(i)
